@@ -133,10 +133,15 @@ CHECKS['C06'] = dict(
          'delivered (every element once enough credit was granted); nothing is delivered after cancel. Tied to '
          'stream_from_generator.py / stream_from_async_generator.py / both back_pressure_publisher.py by an in-Coq correspondence at '
          'settled points plus a per-iteration safety oracle, and through real endpoints: wire PAYLOAD elements vs credit received, '
-         'credit values forwarded exactly in both directions (incl. credit requested from inside on_subscribe). Partial: Rx operator '
-         'internals are assumed.',
+         'credit values forwarded exactly in both directions (incl. credit requested from inside on_subscribe). The last clause '
+         '(credit granted by an application reaches the peer with exactly that value) is also a theorem: Subscription.request(n) queues '
+         'exactly one REQUEST_N with n, initial_request_n(n) is what the request frame carries, no other section queues credit, a '
+         'dispatched REQUEST_N / request frame gives the producer exactly the frame\'s value, and C06_network_credit: over EVERY '
+         'history of two connected endpoints the request(n) calls a side\'s producers are given on a stream are, in order and '
+         'without repetition, credit values of frames the peer queued on that stream; tied to the code by two RECORDED real '
+         'endpoints with the harness as the link, replayed through net_run inside Coq. Partial: Rx operator internals are assumed.',
     design_ref='DESIGN.md section 6, C06',
-    technique='Coq proof (credit invariant over all schedules; quiescence characterisation) + in-Coq correspondence with the four library sources and real endpoints')
+    technique='Coq proof (credit invariant over all schedules; quiescence characterisation; credit transmission over a two-endpoint network model) + in-Coq correspondence with the four library sources, real endpoints and two recorded real endpoints linked by the harness')
 
 CHECKS['C12'] = dict(
     text='Theorems (props/C12.v): the byte loop terminates on arbitrary bytes for any decoder verdicts and a bad body does not disturb '
